@@ -686,7 +686,7 @@ func moveCycle(moves [][3]string) string {
 
 func phName(ph *ssa.Phi) string {
 	if ph.Comment != "" {
-		return ph.Comment
+		return phiName(ph)
 	}
 	return ph.Name()
 }
